@@ -141,8 +141,15 @@ func rootOf(conns []c04conn) string {
 // runs in which the order of a fan-out is not decided by the configuration).
 var c04NoGen bool
 
+// c04EntryFirst: the connection from the stream's start stays the first one listed (set
+// by runC04 for the flow-reference shape, whose composite model is built on that).
+var c04EntryFirst bool
+
 func genC04Flow(tp *kernel.Tape, name string) *c04flow {
 	f := &c04flow{name: name, nReq: tp.Range(1, 4), nGen: tp.Range(0, 2), nResp: tp.Range(0, 3), status: map[string]int{}}
+	if tp.Chance(1, 5) {
+		f.nReq = tp.Range(6, 9) // a large flow: more than a dozen connections in its request direction
+	}
 	if c04NoGen {
 		f.nGen = 0
 	}
@@ -204,6 +211,14 @@ func genC04Flow(tp *kernel.Tape, name string) *c04flow {
 		if !hasOut[p] {
 			f.req = append(f.req, c04conn{from: p, cond: conds[tp.Choose(2)], to: ""})
 		}
+	}
+	// the connection from the stream's start is listed anywhere among the others in a
+	// third of the flows (the order of the others, which is the order of a fan-out, stays)
+	if len(f.req) > 2 && !c04EntryFirst && tp.Chance(1, 3) {
+		k := 1 + tp.Choose(len(f.req)-1)
+		entry := f.req[0]
+		rest := append([]c04conn{}, f.req[1:]...)
+		f.req = append(append(append([]c04conn{}, rest[:k]...), entry), rest[k:]...)
 	}
 	// response direction: optional root chain r1.., every early-response node has exactly one response connection
 	if f.nResp > 0 && tp.Chance(3, 4) {
@@ -280,7 +295,8 @@ func runC04(s *kernel.Sim) {
 	// runs have no early-response nodes and are judged on what ran, not in which order)
 	twoEntries := refShape && tp.Chance(1, 3)
 	c04NoGen = twoEntries
-	defer func() { c04NoGen = false }()
+	c04EntryFirst = refShape
+	defer func() { c04NoGen, c04EntryFirst = false, false }()
 	s.Knobs["flow_reference"], s.Knobs["referenced_flow_end_fans_out"] = refShape, twoEntries
 	var flows []*c04flow
 	files := map[string]string{}
